@@ -95,6 +95,7 @@ type Exec struct {
 	crcBuf    map[*Loc][]*Term
 	largeAlloc int
 	clockFixed *Term
+	jsonBlobs  map[*Loc]*jsonBlob
 }
 
 type knownPred struct {
